@@ -41,7 +41,7 @@ DiagBad(d) == \E j \in 1..Len(d) : d[j] \in {"error", "Error"}
 T_Begin ==
   /\ IsEvent("begin")
   /\ LET e == Trace[l]  n == Len(e.stmts) IN
-     cs' = [id |-> e.id, stmts |-> e.stmts, i |-> 1, k |-> 0, sym |-> EmptyFn, equ |-> EmptyFn,
+     cs' = [id |-> e.id, stmts |-> e.stmts, i |-> 1, k |-> 0, sym |-> EmptyFn, equs |-> << >>,
             locB |-> [j \in 1..n |-> 0], psz |-> [j \in 1..n |-> 0], bitsS |-> [j \in 1..n |-> 16],
             ocB |-> [j \in 1..n |-> 0], ocA |-> [j \in 1..n |-> 0], dg |-> {}, dgp1 |-> {},
             sb |-> [j \in 1..n |-> << >>], soff |-> [j \in 1..n |-> -1], cgbits |-> [j \in 1..n |-> 0],
@@ -51,6 +51,12 @@ T_Begin ==
 (***************************************************************************)
 (* p1: one top-level statement was processed by pass 1                     *)
 (***************************************************************************)
+\* EQU definitions in force at statement i: every definition made by an earlier statement, the latest one winning
+EquAt(c, i) ==
+  LET idx == {j \in 1..Len(c.equs) : c.equs[j][1] < i}
+      names == {c.equs[j][2] : j \in idx}
+  IN [nm \in names |-> c.equs[CHOOSE j \in idx : c.equs[j][2] = nm /\ \A j2 \in idx : c.equs[j2][2] = nm => j2 <= j][3]]
+
 KindOK(s, e) ==
   CASE s.k = "label" -> e.kind = "Label" /\ e.name = s.nm
     [] s.k = "equ" -> e.kind = "Declare" /\ e.name = s.nm
@@ -66,7 +72,7 @@ KindOK(s, e) ==
 
 JudgeP1(c, i, e) ==
   LET s == c.stmts[i]
-      env == [sym |-> c.sym, equ |-> c.equ, dollar |-> e.locB]
+      env == [sym |-> c.sym, equ |-> EquAt(c, i), dollar |-> e.locB]
       d == e.locA - e.locB
       Mk(tags, why) == [id |-> c.id, i |-> i, at |-> "p1", tags |-> tags, why |-> why, sk |-> s.k, op |-> e.op,
                         bits |-> e.bitsB, obs |-> <<e.locB, e.locA, e.ocB, e.ocA>>]
@@ -104,7 +110,7 @@ T_P1 ==
      /\ Report(JudgeP1(cs, i, e))
      /\ cs' = [cs EXCEPT !.i = i + 1,
                          !.sym = IF e.kind = "Label" THEN Put(cs.sym, e.name, e.val) ELSE @,
-                         !.equ = IF cs.stmts[i].k = "equ" THEN Put(cs.equ, cs.stmts[i].nm, SubstDollar(cs.stmts[i].e, e.locB)) ELSE @,
+                         !.equs = IF cs.stmts[i].k = "equ" THEN Append(@, <<i, cs.stmts[i].nm, SubstDollar(cs.stmts[i].e, e.locB)>>) ELSE @,
                          !.locB[i] = e.locB, !.psz[i] = e.locA - e.locB, !.bitsS[i] = cs.bits,
                          !.ocB[i] = e.ocB, !.ocA[i] = e.ocA,
                          !.dg = IF DiagBad(e.diag) THEN @ \cup {i} ELSE @,
@@ -121,7 +127,7 @@ Owner(c, k) == LET own == {j \in 1..Len(c.stmts) : c.ocB[j] <= k /\ k < c.ocA[j]
 
 JudgeStmt(c, i, bytes, off, cgb) ==
   LET bits == c.bitsS[i]
-      env == [sym |-> c.sym, equ |-> c.equ, dollar |-> c.locB[i]]
+      env == [sym |-> c.sym, equ |-> EquAt(c, i), dollar |-> c.locB[i]]
       s == ResolveEqu(c.stmts[i], env)
       V(o) == OpVal(o, env)
       Mk(tags, why) == [id |-> c.id, i |-> i, at |-> "cg", tags |-> tags, why |-> why, sk |-> s.k,
